@@ -3,5 +3,7 @@ import miri
 
 
 def extra(mon, tier, seed):
-    n = 4 if tier == "quick" else 64
-    miri.run_wsm_under_miri("C12", (0, n), seed, mon, "histories + halves on two threads, %d scheduler seeds" % n)
+    if tier == "quick":
+        miri.run_wsm_under_miri("C12", (0, 4), seed, mon, "histories + halves on two threads, 4 scheduler seeds")
+    else:
+        miri.run_multi("C12", [seed * 1000 + i for i in range(8)], 8, mon, "histories + halves on two threads")
